@@ -143,6 +143,24 @@ def rules(ctx):
                  "are overwritten, idempotence x*x = x is bypassed)" % src(bad[0])[:60])
     from .C05 import imul_rules
     imul_rules(ctx, 'R07.5')
+    ctx.rule('R07.7', "operands are told apart only as model (dict) versus label: any hashable, tuples included, is a label", floor=8)
+    for name, fn in fns.items():
+        bad = []
+        for n in ast.walk(fn.node):
+            if isinstance(n, ast.Call) and is_name(n.func, 'isinstance') and len(n.args) == 2:
+                cls_ = n.args[1]
+                names = [src(e) for e in (cls_.elts if isinstance(cls_, ast.Tuple) else [cls_])]
+                for c in names:
+                    base = c.split('.')[-1]
+                    if base == 'dict' or base in P.classes and R.is_model_class(base) or base in ('BOOLEAN_MODELS', 'SPIN_MODELS'):
+                        continue
+                    bad.append((n, c))
+            if isinstance(n, ast.Compare) and any(isinstance(c_, ast.Call) and is_name(c_.func, 'type') for c_ in [n.left] + n.comparators):
+                bad.append((n, src(n)))
+        ctx.inst('R07.7', fn, 'operand type tests in %s' % name, not bad,
+                 "only model-versus-label tests" if not bad else
+                 "`%s` treats operands of type %s specially: such a value is a legitimate variable label (any hashable), so the "
+                 "gate computes a different function for it" % (src(bad[0][0])[:60], bad[0][1]))
     ctx.rule('R07.6', "no function reachable from a builder reads the display metadata `name` of an operand", floor=8)
     no_metadata_reads(ctx, 'R07.6', [(fn, None) for fn in fns.values()])
 
